@@ -49,6 +49,14 @@ def check(tier, seed, t0):
     trace = os.path.join(vf.WORK, "C10_trace.ndjson")
     vf.run_harness(["record", "c10", trace, nev, "--seed", seed, "--pool", pool + "," + gpool])
     os.remove(gpool)
+    # pinned inputs of open findings (exact polygons and maps; findings/known_findings.jsonl) are re-executed on every run
+    pinned = os.path.join(vf.VERIF, "findings", "pinned_c10.ndjson")
+    if os.path.exists(pinned):
+        ptrace = os.path.join(vf.WORK, "C10_pinned.ndjson")
+        vf.run_harness(["record", "c10rerun", ptrace, 0, "--pool", pinned])
+        with open(trace, "a") as out, open(ptrace) as f:
+            out.write(f.read())
+        os.remove(ptrace)
     results, mism, n = validate(trace, "C10_validate")
     evk, nontriv, samples = {}, set(), []
     with open(trace) as f:
